@@ -61,8 +61,9 @@ def configs(tier, seed):
     else:
         n3 = list(itertools.product(PROPOSALS, [0.0, 0.2], ["library", "run"]))
     for prop, op, wiring in n3:
+        # start trees named in pre-order, as the run loop hands them to the move after every sweep (clone 0 on top)
         cfgs.append(dict(move="subtree", n=3, D=1, G=4, proposal=prop, outlier_prior=op, wiring=wiring, threshold=0.5,
-                         N=2, alpha=alphas[k % 3], data_seed=seed * 1000 + 99))
+                         N=2, alpha=alphas[k % 3], data_seed=seed * 1000 + 99, relabel=bool(k % 2 == 0 or tier == "quick")))
         k += 1
     return cfgs
 
